@@ -217,9 +217,10 @@ func ruleCursorPrimitives(c *Ctx) {
 				l := cd.L.String()
 				exact0 := cd.R.IsConst() && ((cd.R.K == 0 && (cd.Op == token.LEQ || cd.Op == token.GTR)) || (cd.R.K == 1 && (cd.Op == token.LSS || cd.Op == token.GEQ)))
 				switch {
-				case strings.HasPrefix(l, maskPrefix) && wholeParen(l) && cd.R.IsConst() && (cd.Op == token.LEQ || cd.Op == token.GTR || cd.Op == token.LSS || cd.Op == token.GEQ):
+				case strings.HasPrefix(l, maskPrefix) && wholeParen(l) && cd.R.IsConst() && (cd.Op == token.LEQ || cd.Op == token.GTR || cd.Op == token.LSS || cd.Op == token.GEQ || cd.Op == token.EQL || cd.Op == token.NEQ):
 					nNop++
-					if !exact0 {
+					// a masked payload is never negative: `== 0` is the same test as `<= 0`
+					if !exact0 && !(cd.R.K == 0 && (cd.Op == token.EQL || cd.Op == token.NEQ)) {
 						bad = "a NOP payload is compared with " + cd.String() + ": only payload <= 0 may be refused (a single deleted word has payload 1)"
 					}
 				case strings.Contains(l, "addNext@calcNext") && !strings.Contains(l, "+") && cd.R.IsConst():
